@@ -557,6 +557,9 @@ func c18BigInputs(c *core.Ctx) bool {
 }
 
 func (c18) RunCase(c *core.Ctx) {
+	if c.Case == 12 && !w10(c, "C18") {
+		return
+	}
 	if c.Case == 11 && !c18BigInputs(c) {
 		return
 	}
